@@ -39,6 +39,12 @@ ALL_KINDS = ["ooxml", "ppt", "xls", "doc", "odf", "pdf", "zip", "sevenz", "epub"
 INVS = ["Inv_DetectorAgrees", "Inv_NoYieldBeforeReject", "Inv_EncryptedRejected", "Inv_EncryptedNeverYields",
         "Inv_PlainNeverEncrypted", "Inv_EmptyPasswordExtracts"]
 ENTRIES = ["direct", "read_file", "cli"]
+# calls recorded per case: (key, entry, stream position, mode); the position / mode variants repeat the direct call
+CALLS = [("direct", "direct", "start", "fresh"), ("direct@middle", "direct", "middle", "fresh"),
+         ("direct@end", "direct", "end", "fresh"), ("detect+direct", "direct", "middle", "after-detector"),
+         ("read_file", "read_file", "start", "fresh"), ("cli", "cli", "start", "fresh")]
+DETECTOR_FN = {"ooxml": "is_ooxml_encrypted", "ppt": "is_ppt_encrypted", "xls": "is_xls_encrypted",
+               "odf": "is_odf_encrypted"}        # module-level detectors that take the stream (util/encryption.py)
 NWORK = 12
 
 
@@ -183,8 +189,8 @@ def run(ctx):
             ctx.log("cpu per kind: " + ", ".join(f"{k2}: {n} cases {s2:.1f}s" for k2, (n, s2) in sorted(agg.items())))
         fx = [t for part in f_fx.result() for t in part]
     n_named = sum(1 for t in fx if t["ev"][0].get("named"))
-    if n_named < 10 * len(ENTRIES):
-        raise MachineryError(f"only {n_named} protected-fixture traces found (expected >= 30): fixtures moved?")
+    if len({t["meta"]["file"] for t in fx if t["ev"][0].get("named")}) < 10:
+        raise MachineryError(f"only {n_named} protected-fixture traces found (expected 10 files): fixtures moved?")
     traces += fx
 
     # ---- 4. validation by TLC
@@ -205,12 +211,12 @@ def run(ctx):
             seq = " ".join(x["a"] + (":" + str(x.get("cls", x.get("v", ""))) if x["a"] in ("Raise", "Detect") else "")
                            for x in t["ev"])
             what = (f"{t['hdr']['c']['kind']}: events [{seq}] of a {t['meta'].get('cls', '?')} container are not a "
-                    f"behaviour of the specification (via {t['hdr']['entry']})")
+                    f"behaviour of the specification (via {_via(t)})")
         g = groups.setdefault(what.split(" (via")[0], {"n": 0, "ex": [], "t": t, "e": e, "what": what})
         g["n"] += 1
         if len(g["ex"]) < 4:
             g["ex"].append({"container": t["hdr"]["c"] if len(json.dumps(t["hdr"]["c"])) < 600 else "(large)",
-                            "entry": t["hdr"]["entry"], **t["meta"], "events": t["ev"]})
+                            "entry": _via(t), **t["meta"], "events": t["ev"]})
     for key in sorted(groups):
         g = groups[key]
         t = g["t"]
@@ -268,19 +274,26 @@ def run(ctx):
               "quick tier replays every container in at least one format; thorough in all")
 
 
+def _via(t):
+    h = t["hdr"]
+    extra = ("" if h.get("pos", "start") == "start" else f", stream position {h['pos']}") + \
+            ("" if h.get("mode", "fresh") == "fresh" else ", detector function called first on the same stream")
+    return h["entry"] + extra
+
+
 def _explain(t, e):
     c = t["hdr"]["c"]
     cls = t["meta"].get("cls", "?")
     a = e.get("a")
     if a == "Detect":
-        return f"{c['kind']} detector returned {e.get('v')} for a {cls} container (via {t['hdr']['entry']})"
+        return f"{c['kind']} detector returned {e.get('v')} for a {cls} container (via {_via(t)})"
     if a == "Yield":
-        return f"{c['kind']}: a result was yielded for a {cls} container / after a positive detector verdict (via {t['hdr']['entry']})"
+        return f"{c['kind']}: a result was yielded for a {cls} container / after a positive detector verdict (via {_via(t)})"
     if a == "Raise":
         return (f"{c['kind']}: error class {e.get('cls')} ({e.get('name')}) for a {cls} container "
-                f"(via {t['hdr']['entry']}, exit={e.get('exit')}, stdout={e.get('out')})")
+                f"(via {_via(t)}, exit={e.get('exit')}, stdout={e.get('out')})")
     if a == "End":
-        return f"{c['kind']}: extraction of a {cls} container ended normally, same-as-plain={e.get('same')} (via {t['hdr']['entry']})"
+        return f"{c['kind']}: extraction of a {cls} container ended normally, same-as-plain={e.get('same')} (via {_via(t)})"
     if a == "Fixture":
         return f"fixture {t['meta'].get('file')} named protected={e.get('named')} but its projection is classified differently"
     return f"{c['kind']}: unexpected event {e}"
@@ -470,27 +483,41 @@ def _summary(results):
     return out
 
 
-def _observe(path, ext, kind, rec, Enc, same_fn=None, plain_path=None):
-    """Run one file through the three entry points; returns {entry: events}."""
+def _observe(path, ext, kind, rec, Enc, same_fn=None, plain_path=None, variants=None):
+    """Run one file through the entry points / call variants of CALLS; returns {call key: events}."""
     import contextlib
     import io
     import sharepoint2text
     from sharepoint2text import cli
     out = {}
     data = Path(path).read_bytes()
-    # ---- direct extractor
-    evs = []
-    rec.events, rec.kind = evs, kind
-    try:
-        fn = _extractor_for(ext)
-        results = []
-        for r in fn(io.BytesIO(data), str(path)):
-            evs.append({"a": "Yield"})
-            results.append(r)
-        evs.append({"a": "End", "same": same_fn(results, "direct") if same_fn else "n/a", "exit": 0, "out": "n/a"})
-    except Exception as e:
-        evs.append({"a": "Raise", "cls": _cls(e, Enc), "name": type(e).__name__, "exit": 1, "out": "n/a"})
-    out["direct"] = evs
+    # ---- direct extractor: stream at the start, in the middle, at the end; and after the kind's detector function
+    # ran first on the same stream object (left wherever the detector leaves it)
+    for key, _entry, pos, mode in CALLS:
+        if _entry != "direct" or (variants is not None and key not in variants):
+            continue
+        if mode == "after-detector" and kind not in DETECTOR_FN:
+            continue
+        evs = []
+        rec.events, rec.kind = evs, kind
+        try:
+            stream = io.BytesIO(data)
+            stream.seek({"start": 0, "middle": max(1, len(data) // 2), "end": len(data)}[pos])
+            if mode == "after-detector":
+                from sharepoint2text.parsing.extractors.util import encryption as _enc
+                det = getattr(_enc, DETECTOR_FN[kind], None)
+                if det is None:
+                    continue                     # detector inlined by a refactoring: this variant does not apply
+                evs.append({"a": "Detect", "v": bool(det(stream))})
+            fn = _extractor_for(ext)
+            results = []
+            for r in fn(stream, str(path)):
+                evs.append({"a": "Yield"})
+                results.append(r)
+            evs.append({"a": "End", "same": same_fn(results, "direct") if same_fn else "n/a", "exit": 0, "out": "n/a"})
+        except Exception as e:
+            evs.append({"a": "Raise", "cls": _cls(e, Enc), "name": type(e).__name__, "exit": 1, "out": "n/a"})
+        out[key] = evs
     # ---- read_file
     evs = []
     rec.events, rec.kind = evs, kind
@@ -584,10 +611,14 @@ def _worker_run(inp, out, cdir):
                 ok = memo["tok"] and memo["plain"] and _summary(results) == memo["plain"]
                 return "yes" if ok else "no"
         t0 = time.time()
-        obs = _observe(path, ext, c["kind"], rec, Enc, same_fn, plain_path)
+        # AES-256 revision 6 costs seconds per open: one position variant only
+        variants = {"direct", "direct@end"} if c.get("alg") == "AES-256" else None
+        obs = _observe(path, ext, c["kind"], rec, Enc, same_fn, plain_path, variants)
         dt = round(time.time() - t0, 3)
-        for entry in ENTRIES:
-            traces.append({"id": f"{case['id']}:{entry}", "hdr": {"c": c, "entry": entry}, "ev": obs[entry],
+        for key, entry, pos, mode in CALLS:
+            if key not in obs:
+                continue
+            traces.append({"id": f"{case['id']}:{key}", "hdr": {"c": c, "entry": entry, "pos": pos, "mode": mode}, "ev": obs[key],
                            "meta": {"ext": ext, "cls": case["cls"], "file": os.path.basename(path), "dt": dt}})
     Path(out).write_text(json.dumps(traces))
 
@@ -616,9 +647,11 @@ def _worker_fixtures(inp, out, cdir):
         except Exception:
             continue
         obs = _observe(p, ext, c["kind"], rec, Enc)
-        for entry in ENTRIES:
-            traces.append({"id": f"fx:{p.name}:{entry}", "hdr": {"c": c, "entry": entry},
-                           "ev": [{"a": "Fixture", "named": named}] + obs[entry],
+        for key, entry, spos, mode in CALLS:
+            if key not in obs:
+                continue
+            traces.append({"id": f"fx:{p.name}:{key}", "hdr": {"c": c, "entry": entry, "pos": spos, "mode": mode},
+                           "ev": [{"a": "Fixture", "named": named}] + obs[key],
                            "meta": {"ext": ext, "fixture": True, "file": str(p.relative_to(res_dir)),
                                     "cls": "MUST" if named else "?"}})
     # FILEPASS inserted into the real workbook streams of the fixtures, at many record positions
@@ -634,8 +667,11 @@ def _worker_fixtures(inp, out, cdir):
                 f.write_bytes(data)
                 c = B.project_xls(data)
                 obs = _observe(f, "xls", "xls", rec, Enc)
-                for entry in ENTRIES:
-                    traces.append({"id": f"xlsreal:{f.name}:{entry}", "hdr": {"c": c, "entry": entry}, "ev": obs[entry],
+                for key, entry, spos, mode in CALLS:
+                    if key not in obs:
+                        continue
+                    traces.append({"id": f"xlsreal:{f.name}:{key}", "hdr": {"c": c, "entry": entry, "pos": spos, "mode": mode},
+                                   "ev": obs[key],
                                    "meta": {"ext": "xls", "file": f.name, "cls": "DONTCARE" if ovr else "MUST",
                                             "variant": f"FILEPASS inserted before record {ppos} of {rel}" + (" behind an overrunning record" if ovr else "")}})
     Path(out).write_text(json.dumps(traces))
